@@ -44,7 +44,7 @@ package age
 //@ func Decrypt(src, identities) (rd, err)
 //@   requires src != nil && (forall j in 0..len(identities) :: identities[j] != nil)
 //@   loop 1 invariant -1 <= rangeindex && rangeindex < len(hdr.Recipients) && len(stanzas) == rangeindex+1 && disjoint(stanzas, hdr.Recipients) && (forall j in 0..len(hdr.Recipients) :: hdr.Recipients[j] != nil)
-//@   loop 1 invariant#copy forall j in 0..rangeindex+1 :: stanzas[j] == hdr.Recipients[j]     [C01]
+//@   loop 1 invariant#copy forall j in 0..rangeindex+1 :: stanzas[j] == hdr.Recipients[j]     [C01 C04 C10]
 //@   loop 1 decreases len(hdr.Recipients) - rangeindex
 //@   loop 2 invariant -1 <= rangeindex && rangeindex < len(identities)
 //@   loop 2 invariant#count $uwn == old($uwn) + rangeindex + 1                                                                        [C01 C04]
@@ -54,7 +54,7 @@ package age
 //@   loop 2 invariant#logerr forall j in 0..rangeindex+1 :: wraps($uwerr[old($uwn)+j], EII)                                            [C01]
 //@   loop 2 invariant#alleii (forall j in 0..rangeindex+1 :: wraps($uwerr[old($uwn)+j], EII)) ==> (fileKey == nil && len(errNoMatch.Errors) == rangeindex+1 && (forall j in 0..rangeindex+1 :: errNoMatch.Errors[j] == $uwerr[old($uwn)+j]))   [C04]
 //@   loop 2 decreases len(identities) - rangeindex
-//@   call Unwrap#0 requires len(arg1) == len(hdr.Recipients) && (forall j in 0..len(arg1) :: arg1[j] == hdr.Recipients[j])             [C01]
+//@   call Unwrap#0 requires len(arg1) == len(hdr.Recipients) && (forall j in 0..len(arg1) :: arg1[j] == hdr.Recipients[j])             [C01 C04 C10]
 //@   ensures#nilxor (rd == nil) <==> (err != nil)                                                              [C03 C04 C07 C14]
 //@   ensures#order $uwn - old($uwn) <= len(identities) && (forall j in 0..$uwn-old($uwn) :: $uwid[old($uwn)+j] == identities[j])   [C01]
 //@   ensures#stopfirst forall j in 0..$uwn-old($uwn)-1 :: wraps($uwerr[old($uwn)+j], EII)                      [C01]
@@ -124,7 +124,7 @@ package age
 //@   call X25519#1 requires same(arg0, i.secretKey) && bytes(arg1) == unb64raw(block.Args[0]) && len(arg1) == 32                  [C05 C14]
 //@   call hkdf.New#1 requires isfunc(arg0, "crypto/sha256.New") && bytes(arg1) == x25519(bytes(i.secretKey), unb64raw(block.Args[0])) && bytes(arg2) == cat(unb64raw(block.Args[0]), bytes(i.ourPublicKey)) && bytes(arg3) == X25519LABEL   [C05]
 //@   call aeadDecrypt#1 requires arg1 == 16 && same(arg2, block.Body)                                                              [C05]
-//@   ensures#foreign block.Type != "X25519" ==> err == ErrIncorrectIdentity                                                        [C01 C04]
+//@   ensures#foreign block.Type != "X25519" ==> err == ErrIncorrectIdentity                                                        [C01 C04 C05]
 //@   ensures#nil err != nil ==> fk == nil                                                                                          [C01 C04]
 //@   ensures#wrongkey (block.Type == "X25519" && len(block.Args) == 1 && b64rawok(block.Args[0]) && len(unb64raw(block.Args[0])) == 32 && x25519ok(bytes(i.secretKey), unb64raw(block.Args[0])) && len(block.Body) == 32 && !openok(x25519Key(x25519(bytes(i.secretKey), unb64raw(block.Args[0])), unb64raw(block.Args[0]), bytes(i.ourPublicKey)), zeros(12), bytes(block.Body))) ==> err == ErrIncorrectIdentity   [C04]
 //@   ensures#ok err == nil ==> block.Type == "X25519" && len(fk) == 16 && bytes(fk) == open(x25519Key(x25519(bytes(i.secretKey), unb64raw(block.Args[0])), unb64raw(block.Args[0]), bytes(i.ourPublicKey)), zeros(12), bytes(block.Body))   [C01 C04]
@@ -140,6 +140,7 @@ package age
 //@   call scrypt.Key#1 requires same(arg0, r.password) && bytes(arg1) == cat(SCRYPTLABEL, csprng(old($draws), 16)) && arg2 == pow2(r.workFactor) && arg3 == 8 && arg4 == 1 && arg5 == 32   [C05 C06]
 //@   call aeadEncrypt#1 requires same(arg1, fileKey)                                                                                [C01 C05]
 //@   ensures#one err == nil ==> len(stanzas) == 1 && stanzas[0] != nil
+//@   ensures#nil err != nil ==> stanzas == nil
 //@   ensures#shape err == nil ==> stanzas[0].Type == "scrypt" && len(stanzas[0].Args) == 2 && stanzas[0].Args[0] == b64raw(csprng(old($draws), 16)) && stanzas[0].Args[1] == itoa(r.workFactor)   [C01 C05 C10]
 //@   ensures#body err == nil ==> bytes(stanzas[0].Body) == seal(scryptKeyOf(bytes(r.password), csprng(old($draws), 16), r.workFactor), zeros(12), old(bytes(fileKey)))   [C01 C05]
 //@   ensures#draws $draws == old($draws) + 1                                                                                       [C06 C10]
@@ -160,7 +161,8 @@ package age
 //@   requires block != nil && 1 <= i.maxWorkFactor && i.maxWorkFactor <= 30
 //@   call scrypt.Key#1 requires canondec(block.Args[1]) && 1 <= atoi(block.Args[1]) && atoi(block.Args[1]) <= i.maxWorkFactor && arg2 == pow2(atoi(block.Args[1])) && arg3 == 8 && arg4 == 1 && arg5 == 32 && same(arg0, i.password) && bytes(arg1) == cat(SCRYPTLABEL, unb64raw(block.Args[0])) && len(unb64raw(block.Args[0])) == 16   [C05 C10 C14]
 //@   call aeadDecrypt#1 requires arg1 == 16 && same(arg2, block.Body)                                                               [C05]
-//@   ensures#foreign block.Type != "scrypt" ==> err == ErrIncorrectIdentity && $scryptcalls == old($scryptcalls)                    [C01 C04 C10]
+//@   ensures#foreign block.Type != "scrypt" ==> err == ErrIncorrectIdentity                                        [C01 C04 C10 C05]
+//@   ensures#foreignnokdf block.Type != "scrypt" ==> $scryptcalls == old($scryptcalls)                              [C01 C04 C10 C05]
 //@   ensures#nil err != nil ==> fk == nil                                                                                           [C01 C04]
 //@   ensures#bound (block.Type == "scrypt" && len(block.Args) == 2 && (!canondec(block.Args[1]) || atoi(block.Args[1]) > i.maxWorkFactor)) ==> err != nil && $scryptcalls == old($scryptcalls)   [C10 C14]
 //@   ensures#calls $scryptcalls <= old($scryptcalls) + 1                                                                            [C10 C14]
@@ -177,6 +179,7 @@ package age
 //@   loop 1 decreases len(stanzas) - rangeindex
 //@   ensures#alone (len(stanzas) != 1 && (exists j in 0..len(stanzas) :: stanzas[j].Type == "scrypt")) ==> fk == nil && err != nil && !wraps(err, ErrIncorrectIdentity) && $scryptcalls == old($scryptcalls)   [C10]
 //@   ensures#nil err != nil ==> fk == nil                                                                                           [C01 C04]
+//@   ensures#foreign (forall j in 0..len(stanzas) :: stanzas[j].Type != "scrypt") ==> err == ErrIncorrectIdentity   [C01 C04 C05]
 
 //@ func Encrypt(dst, recipients) (wc, err)
 //@   requires dst != nil && (forall j in 0..len(recipients) :: recipients[j] != nil)
@@ -243,6 +246,9 @@ package age
 
 //@ func ParseX25519Identity(s) (i, err)
 //@   call bech32.Decode#1 requires arg0 == s                                                                            [C09]
+//@   call fmt.Errorf#1 requires arg0 == "malformed secret key: %v" && len(arg1) == 1 && arg1[0] == lasterr("bech32.Decode",1)                     [C18]
+//@   call fmt.Errorf#2 requires arg0 == "malformed secret key: unknown type %q" && len(arg1) == 1 && unboxstr(arg1[0]) == lastret("bech32.Decode",1,0) && lasterr("bech32.Decode",1) == nil   [C18]
+//@   call fmt.Errorf#3 requires arg0 == "malformed secret key: %v" && len(arg1) == 1 && arg1[0] == lasterr("newX25519IdentityFromScalar",1)       [C18]
 //@   ensures#canon err == nil ==> i != nil && len(i.secretKey) == 32 && hasprefix(s, "AGE-SECRET-KEY-") && at(s, 15) == 49 && (forall j in 0..len(s) :: 33 <= at(s, j) && at(s, j) <= 126)   [C09 C18]
 //@   ensures#nil err != nil ==> i == nil                                                                                [C09 C14 C18]
 //@   fresh i when err == nil
@@ -286,7 +292,7 @@ package age
 //@ func (*X25519Identity).Unwrap(i, stanzas) (fk, err)
 //@   requires len(i.secretKey) == 32 && len(i.ourPublicKey) == 32 && (forall j in 0..len(stanzas) :: stanzas[j] != nil)
 //@   ensures#nil err != nil ==> fk == nil                                                                                           [C01 C04]
-//@   ensures#foreign (forall j in 0..len(stanzas) :: stanzas[j].Type != "X25519") ==> err == ErrIncorrectIdentity                   [C01 C04]
+//@   ensures#foreign (forall j in 0..len(stanzas) :: stanzas[j].Type != "X25519") ==> err == ErrIncorrectIdentity                   [C01 C04 C05]
 //@   ensures#ok1 (len(stanzas) == 1 && err == nil) ==> stanzas[0].Type == "X25519" && len(fk) == 16 && bytes(fk) == open(x25519Key(x25519(bytes(i.secretKey), unb64raw(stanzas[0].Args[0])), unb64raw(stanzas[0].Args[0]), bytes(i.ourPublicKey)), zeros(12), bytes(stanzas[0].Body))   [C01]
 //@   ensures#opens1 (len(stanzas) == 1 && stanzas[0].Type == "X25519" && len(stanzas[0].Args) == 1 && b64rawok(stanzas[0].Args[0]) && len(unb64raw(stanzas[0].Args[0])) == 32 && x25519ok(bytes(i.secretKey), unb64raw(stanzas[0].Args[0])) && len(stanzas[0].Body) == 32 && openok(x25519Key(x25519(bytes(i.secretKey), unb64raw(stanzas[0].Args[0])), unb64raw(stanzas[0].Args[0]), bytes(i.ourPublicKey)), zeros(12), bytes(stanzas[0].Body))) ==> err == nil   [C01]
 //@   ensures#frame i.secretKey == old(i.secretKey) && i.ourPublicKey == old(i.ourPublicKey)                                         [C20]
